@@ -57,6 +57,7 @@ THEOREMS = [
     "Klong.C13.present_isUndef",
     "Klong.C13.pinned_undefined_lost",
     "Klong.C13.not_tauId_pinned",
+    "Klong.C13.whole_frame_writes_decode",
 ]
 
 OP_TIMEOUT = 30.0          # one remote call; a stall is reported as an infrastructure failure
